@@ -97,6 +97,74 @@ DefMaskSum   == IF N(MV) = 0 THEN ENull ELSE EInt(S(MV))
 DefMaskSumRaw == S(MV)
 DefMaskMean  == IF N(MV) < mp THEN ENull ELSE IF N(MV) = 0 THEN EAny ELSE EQ(QN(S(MV), N(MV)))
 
+(* ---- float series holding infinities ----------------------------------------- *)
+
+\* An infinity is a VALID element (only NaN is the null of a float type).  Two sentinels stand for
+\* +inf / -inf; they order like the infinities (every finite value of the alphabet lies between),
+\* so the order-based aggregations are defined as before, and the sums follow IEEE: a sum that
+\* meets one kind of infinity is that infinity, one that meets both has no value.
+PINFA == 900000
+NINFA == 0 - 900000
+IsInfA(x) == x = PINFA \/ x = NINFA
+EInfA(sg) == <<10, sg>>                      \* expectation: sg * infinity (Values.tla kind 10)
+EInfOr(x) == IF x = PINFA THEN EInfA(1) ELSE IF x = NINFA THEN EInfA(0 - 1) ELSE EInt(x)
+HasP(v) == \E k \in 1..Len(v) : v[k] = PINFA
+HasN(v) == \E k \in 1..Len(v) : v[k] = NINFA
+FirstPosIn(ser, x) == CHOOSE p \in 1..Len(ser) : ser[p] = x /\ \A q \in 1..(p - 1) : ser[q] # x
+InfAggKeys == {"count_valid", "count_none", "vfirst", "vlast", "vsum", "vmean", "vmin", "vmax", "vargmin", "vargmax"}
+InfAggOf(k, ser) ==
+    LET v == Sel(ser) IN
+    CASE k = "count_valid" -> EInt(N(v))
+      [] k = "count_none"  -> EInt(Len(ser) - N(v))
+      [] k = "vfirst" -> IF N(v) = 0 THEN ENull ELSE EInfOr(v[1])
+      [] k = "vlast"  -> IF N(v) = 0 THEN ENull ELSE EInfOr(v[N(v)])
+      [] k = "vmin"   -> IF N(v) = 0 THEN ENull ELSE EInfOr(SeqMin(v))
+      [] k = "vmax"   -> IF N(v) = 0 THEN ENull ELSE EInfOr(SeqMax(v))
+      [] k = "vargmin" -> IF N(v) = 0 THEN ENull ELSE EInt(FirstPosIn(ser, SeqMin(v)) - 1)
+      [] k = "vargmax" -> IF N(v) = 0 THEN ENull ELSE EInt(FirstPosIn(ser, SeqMax(v)) - 1)
+      [] k = "vsum"   -> IF N(v) = 0 THEN ENull
+                         ELSE IF HasP(v) /\ HasN(v) THEN EAny
+                         ELSE IF HasP(v) THEN EInfA(1) ELSE IF HasN(v) THEN EInfA(0 - 1) ELSE EInt(S(v))
+      [] k = "vmean"  -> IF N(v) = 0 THEN ENull
+                         ELSE IF HasP(v) /\ HasN(v) THEN EAny
+                         ELSE IF HasP(v) THEN EInfA(1) ELSE IF HasN(v) THEN EInfA(0 - 1) ELSE EQ(QN(S(v), N(v)))
+\* C11 on such series: the minimum of a series that holds -inf IS -inf (no finite bound stands in for
+\* it), likewise the maximum; an extreme is attained by an element; nulls stay transparent
+InfLaws(ser) ==
+    LET v == Sel(ser) IN
+    /\ HasN(v) => InfAggOf("vmin", ser) = EInfA(0 - 1)
+    /\ HasP(v) => InfAggOf("vmax", ser) = EInfA(1)
+    /\ (N(v) > 0 /\ \A k \in 1..N(v) : v[k] = NINFA) => InfAggOf("vmax", ser) = EInfA(0 - 1)
+    /\ (N(v) > 0 /\ \A k \in 1..N(v) : v[k] = PINFA) => InfAggOf("vmin", ser) = EInfA(1)
+    /\ \A k \in InfAggKeys \ {"count_none", "vargmin", "vargmax"} : InfAggOf(k, ser) = InfAggOf(k, v)
+
+(* ---- the fold primitives themselves (iter_traits.rs, number.rs) ------------------ *)
+
+\* vfold / vfold_n / vapply / vapply_n call their closure once per VALID element, in order, and
+\* count those calls; vfold2 once per pairwise-complete pair.  The sequence of calls is the
+\* observable; n_add / n_prod are the one-step forms (accumulate and count when the operand is valid).
+FoldCalls(ser) == Sel(ser)
+Fold2Calls(a, b) == <<PairSelA(a, b), PairSelB(a, b)>>
+RECURSIVE ProdSeq(_)
+ProdSeq(v) == IF v = <<>> THEN 1 ELSE Head(v) * ProdSeq(Tail(v))
+NAddFold(ser) == <<S(Sel(ser)), N(Sel(ser))>>           \* fold of n_add from 0
+NProdFold(ser) == <<ProdSeq(Sel(ser)), N(Sel(ser))>>    \* fold of n_prod from 1
+\* compensated (Kahan) summation is exact on integers: the compensation term stays 0
+RECURSIVE KahanFold(_, _, _)
+KahanFold(v, sum, cc) ==
+    IF v = <<>> THEN <<sum, cc>>
+    ELSE LET y == Head(v) - cc  tt == sum + y IN KahanFold(Tail(v), tt, (tt - sum) - y)
+KahanExact(ser) == KahanFold(Sel(ser), 0, 0) = <<S(Sel(ser)), 0>>
+\* min_with / max_with folded over the valid elements give the extremes
+MinWith(a, b) == IF b < a THEN b ELSE a
+MaxWith(a, b) == IF b > a THEN b ELSE a
+RECURSIVE FoldWith(_, _, _)
+FoldWith(Op(_, _), acc, v) == IF v = <<>> THEN acc ELSE FoldWith(Op, Op(acc, Head(v)), Tail(v))
+WithFoldsExtremes(ser) ==
+    LET v == Sel(ser) IN
+    N(v) > 0 => /\ FoldWith(MinWith, v[1], Tail(v)) = SeqMin(v)
+                /\ FoldWith(MaxWith, v[1], Tail(v)) = SeqMax(v)
+
 (* ---- the one-pass fold machine --------------------------------------------- *)
 
 F0 == [n |-> 0, s1 |-> 0, s2 |-> 0, s3 |-> 0, s4 |-> 0, mn |-> NULL, mx |-> NULL,
@@ -159,6 +227,13 @@ PermInvariant ==
 
 \* C08: nulls are transparent - the aggregation of s is the aggregation of its valid part
 NullTransparent == i = 0 => SymAgg(s) = SymAgg(V)
+
+\* C08 / C11: the fold primitives visit exactly the valid elements, and the one-step helpers agree
+FoldPrimitives ==
+    i = 0 => /\ FoldCalls(s) = V /\ Len(FoldCalls(s)) = CountValid
+             /\ Len(Fold2Calls(s, t)[1]) = Len(Fold2Calls(s, t)[2])
+             /\ NAddFold(s) = <<SumPow(V, 1), CountValid>>
+             /\ KahanExact(s) /\ WithFoldsExtremes(s)
 
 Terminates == <>Done
 =============================================================================
